@@ -151,7 +151,7 @@ theorem stepEvent_state_T0 {s : WState} {it : Iter} :
   cases it.patched <;> simp
 
 theorem okStep_event {idle : Int} {c : Cfg} {it : Iter} (h : okStep idle c (.event it) = true) :
-    c.clock ≤ it.now ∧ it.now ≤ it.tret ∧ it.tp ≤ it.tret := by
+    c.clock ≤ it.now ∧ it.now ≤ it.tret ∧ it.tp ≤ it.tret ∧ it.now ≤ it.tp := by
   simpa [okStep, Bool.and_eq_true, and_assoc] using h
 
 theorem okStep_retire {idle : Int} {c : Cfg} {t : Int} (h : okStep idle c (.retire t) = true) :
@@ -253,6 +253,28 @@ theorem cover_handlers {T : Int} {c : Cfg} {it : Iter} {p : Ver} {tp t : Int} {s
       rw [hst, hd] at hh'
       have := process_handlers_deadline hh'
       omega
+
+/-- A list of steps either contains no patch, or has a last patching iteration. -/
+theorem last_patch_split : ∀ (l : List Step), (∀ st ∈ l, st.patched = none) ∨
+    ∃ (a : List Step) (x : Iter) (q : Ver) (b : List Step),
+      l = a ++ .event x :: b ∧ x.patched = some q ∧ ∀ st ∈ b, st.patched = none
+  | [] => Or.inl (by intro st h; cases h)
+  | st :: l => by
+    rcases last_patch_split l with hnone | ⟨a, x, q, b, hl, hx, hb⟩
+    · cases hp : st.patched with
+      | none =>
+        left
+        intro s hs
+        rcases List.mem_cons.mp hs with h | h
+        · rw [h]; exact hp
+        · exact hnone s h
+      | some q =>
+        right
+        cases st with
+        | event x => exact ⟨[], x, q, l, rfl, hp, hnone⟩
+        | retire t => cases hp
+    · right
+      exact ⟨st :: a, x, q, b, by rw [hl]; rfl, hx, hb⟩
 
 /-! ### deadlines -/
 
